@@ -51,6 +51,11 @@ func (x *Exec) doCallVals(st *State, fr *Frame, in ssa.Instruction, c *ssa.CallC
 	}
 	switch f := c.Value.(type) {
 	case *ssa.Builtin:
+		if f.Name() == "append" && len(args) == 2 {
+			if x.appendInPlace(st, args, k) {
+				return
+			}
+		}
 		k(st, x.builtin(st, fr, in, f, c, args))
 		return
 	case *ssa.Function:
@@ -585,6 +590,59 @@ func termSize(t *Term, cap int) int {
 	return n
 }
 
+// appendInPlace: append to a view of memory that is definitely not this call's own (a list the caller's object brought).
+// Go writes the new elements into that memory when the capacity suffices and allocates otherwise; the two cases are
+// explored separately so that the first is seen as a write into the caller's backing array.
+func (x *Exec) appendInPlace(st *State, args []Value, k cont) bool {
+	base, ok := args[0].(*SliceVal)
+	if !ok {
+		return false
+	}
+	if _, ok := x.keepable(st, base); !ok {
+		return false
+	}
+	src, ok := args[1].(*SliceVal)
+	if !ok || !(src.Len.Op == "int" && src.Len.Num.IsInt64() && src.Len.Num.Int64() >= 1 && src.Len.Num.Int64() <= 8) {
+		return false
+	}
+	rs := x.region(st, src.Reg)
+	if rs.Arr == nil {
+		return false
+	}
+	x.assume("A-APPEND")
+	n := Add(base.Len, src.Len)
+	fits := Le(n, base.Cap)
+	// in place
+	x.paths++
+	st2 := st.Clone()
+	st2.Assume(fits)
+	rb := x.region(st2, base.Reg)
+	arr := rb.Arr
+	for i := int64(0); i < src.Len.Num.Int64(); i++ {
+		arr = Store(arr, Add(Add(base.Off, base.Len), IntLit(i)), Select(rs.Arr, Add(src.Off, IntLit(i))))
+	}
+	st2.Heap[base.Reg] = &RegionVal{Arr: arr, Len: rb.Len}
+	k(st2, []Value{&SliceVal{Reg: base.Reg, Off: base.Off, Len: n, Cap: base.Cap, Nil: TFalse, Elt: base.Elt}})
+	// reallocated
+	x.curPath++
+	st.Assume(Not(fits))
+	rb = x.region(st, base.Reg)
+	arr = Fresh("app", rb.Arr.S)
+	j := Const(fmt.Sprintf("j!q%d", x.nextQ()), SInt)
+	st.Assume(Forall([]*Term{j}, Implies(And(Le(IntLit(0), j), Lt(j, base.Len)), Eq(Select(arr, j), Select(rb.Arr, Add(base.Off, j)))), Select(arr, j)))
+	for i := int64(0); i < src.Len.Num.Int64(); i++ {
+		arr = Store(arr, Add(base.Len, IntLit(i)), Select(rs.Arr, Add(src.Off, IntLit(i))))
+	}
+	esz := types.SizesFor("gc", "amd64").Sizeof(base.Elt)
+	x.countAllocN(st, Mul(IntLit(3*esz), src.Len))
+	reg := newObj(ObjRegion, base.Elt, "app", true)
+	cp := Fresh("app.cap", SInt)
+	st.Assume(Ge(cp, n))
+	st.Heap[reg] = &RegionVal{Arr: arr, Len: n}
+	k(st, []Value{&SliceVal{Reg: reg, Off: IntLit(0), Len: n, Cap: cp, Nil: TFalse, Elt: base.Elt}})
+	return true
+}
+
 func (x *Exec) appendOp(st *State, in ssa.Instruction, c *ssa.CallCommon, args []Value) Value {
 	base := args[0].(*SliceVal)
 	elt := base.Elt
@@ -635,8 +693,10 @@ func (x *Exec) appendOp(st *State, in ssa.Instruction, c *ssa.CallCommon, args [
 	}
 	esz := types.SizesFor("gc", "amd64").Sizeof(elt)
 	x.countAllocN(st, Mul(IntLit(3*esz), src.Len)) // amortised growth (A-APPEND)
-	reg := newObj(ObjRegion, elt, "app", base.Reg.Fresh)
-	reg.FreshT = base.Reg.FreshT
+	// append allocates a new backing array exactly when the capacity does not suffice; otherwise the result may share
+	// its argument's backing array and is owned only if the argument was
+	reg := newObj(ObjRegion, elt, "app", false)
+	reg.FreshT = Or(objFresh(base.Reg), Gt(n, base.Cap))
 	st.Heap[reg] = &RegionVal{Arr: arr, Len: n}
 	return &SliceVal{Reg: reg, Off: IntLit(0), Len: n, Cap: n, Nil: And(base.Nil, Eq(src.Len, IntLit(0))), Elt: elt}
 }
@@ -699,45 +759,56 @@ func (x *Exec) loopEnter(st *State, fr *Frame, h, prev *ssa.BasicBlock, ord int,
 	// discover what the body modifies
 	mods := x.discoverMods(st, fr, h, ord, outer)
 	// havoc
-	hst := st.Clone()
-	hfr := cloneFrame(fr)
-	for _, in := range h.Instrs {
-		p, ok := in.(*ssa.Phi)
-		if !ok {
-			break
+	run := func(keep bool) {
+		hst := st.Clone()
+		hfr := cloneFrame(fr)
+		for _, in := range h.Instrs {
+			p, ok := in.(*ssa.Phi)
+			if !ok {
+				break
+			}
+			hfr.Regs[p] = x.freshValue(hst, p.Type(), "loop."+p.Comment, false)
 		}
-		hfr.Regs[p] = x.freshValue(hst, p.Type(), "loop."+p.Comment, false)
-	}
-	x.applyHavoc(hst, mods)
-	if hst.Alloc != nil {
-		a := Fresh("alloc", SInt)
-		hst.Assume(Ge(a, hst.Alloc))
-		hst.Alloc = a
-	}
-	iter := Fresh("iter", SInt)
-	hst.Assume(Le(IntLit(0), iter))
-	henv := x.invEnv(hst, hfr, h, entry, iter)
-	for _, c := range ls.Invariants {
-		if c.Only != "" && c.Only != x.beh.Name {
-			continue
+		x.applyHavoc(hst, mods, keep)
+		if hst.Alloc != nil {
+			a := Fresh("alloc", SInt)
+			hst.Assume(Ge(a, hst.Alloc))
+			hst.Alloc = a
 		}
-		t, err := henv.evalBool(c.E)
-		if err != nil {
-			continue
+		iter := Fresh("iter", SInt)
+		hst.Assume(Le(IntLit(0), iter))
+		henv := x.invEnv(hst, hfr, h, entry, iter)
+		for _, c := range ls.Invariants {
+			if c.Only != "" && c.Only != x.beh.Name {
+				continue
+			}
+			t, err := henv.evalBool(c.E)
+			if err != nil {
+				continue
+			}
+			hst.Assume(t)
 		}
-		hst.Assume(t)
-	}
-	lc := &loopCtx{header: h, spec: ls, parent: outer, entry: entry, fr: hfr, iter: iter}
-	if ls.Decreases != nil {
-		v, err := henv.evalTerm(ls.Decreases)
-		if err != nil {
-			x.fail(fmt.Sprintf("%s variant: %v", lname, err))
-		} else {
-			lc.variant = x.toInt(v)
+		lc := &loopCtx{header: h, spec: ls, parent: outer, entry: entry, fr: hfr, iter: iter}
+		if ls.Decreases != nil {
+			v, err := henv.evalTerm(ls.Decreases)
+			if err != nil {
+				x.fail(fmt.Sprintf("%s variant: %v", lname, err))
+			} else {
+				lc.variant = x.toInt(v)
+			}
 		}
+		lc.name = lname
+		x.execFrom(hst, hfr, h, nil, 0, lc, k)
 	}
-	lc.name = lname
-	x.execFrom(hst, hfr, h, nil, 0, lc, k)
+	if x.keepCandidates(st, mods) {
+		// a caller-provided list the body re-slices or appends to: besides the general case (the location holds some other
+		// slice by now) explore the one where it still views the same backing array, so that writes through it are seen
+		// as writes into the caller's memory
+		x.paths++
+		run(true)
+		x.curPath++
+	}
+	run(false)
 }
 
 func (x *Exec) loopBackEdge(st *State, fr *Frame, h, prev *ssa.BasicBlock, lc *loopCtx) {
@@ -864,8 +935,48 @@ func (x *Exec) discoverMods(st *State, fr *Frame, h *ssa.BasicBlock, ord int, ou
 	return ms
 }
 
-func (x *Exec) applyHavoc(st *State, ms *modSet) {
-	for o := range ms.whole {
+// keepable: a slice-typed location holding a view of memory that is definitely not this call's own (array-represented).
+func (x *Exec) keepable(st *State, v Value) (*SliceVal, bool) {
+	sv, ok := v.(*SliceVal)
+	if !ok || sv.Reg.Fresh || sv.Reg.FreshT != nil || sv.Reg.Pool || isByte(sv.Elt) {
+		return nil, false
+	}
+	if rv := x.region(st, sv.Reg); rv.Arr == nil {
+		return nil, false
+	}
+	return sv, true
+}
+
+func (x *Exec) keepCandidates(st *State, ms *modSet) bool {
+	if x.quiet > 0 {
+		return false
+	}
+	for o, paths := range ms.leaves {
+		cur, ok := x.heapGet(st, o)
+		if !ok {
+			continue
+		}
+		for _, p := range paths {
+			if _, ok := x.keepable(st, getPath(cur, p)); ok {
+				return true
+			}
+		}
+	}
+	return false
+}
+
+func sortedObjs[V any](m map[*Obj]V) []*Obj {
+	out := make([]*Obj, 0, len(m))
+	for o := range m {
+		out = append(out, o)
+	}
+	sort.Slice(out, func(i, j int) bool { return out[i].ID < out[j].ID })
+	return out
+}
+
+func (x *Exec) applyHavoc(st *State, ms *modSet, keep bool) {
+	// in allocation order: the names of the havoc constants (and with them the query text) must not depend on map order
+	for _, o := range sortedObjs(ms.whole) {
 		switch o.Kind {
 		case ObjRegion:
 			old := x.region(st, o)
@@ -884,7 +995,8 @@ func (x *Exec) applyHavoc(st *State, ms *modSet) {
 			st.Heap[o] = nm
 		}
 	}
-	for o, paths := range ms.leaves {
+	for _, o := range sortedObjs(ms.leaves) {
+		paths := ms.leaves[o]
 		cur, ok := x.heapGet(st, o)
 		if !ok {
 			continue
@@ -900,6 +1012,13 @@ func (x *Exec) applyHavoc(st *State, ms *modSet) {
 						st.Assume(And(Le(IntBig(lo), nv.(*Term)), Le(nv.(*Term), IntBig(hi))))
 					}
 				}
+			} else if sv, ok := x.keepable(st, old); ok && keep {
+				// still the same backing array, offset and capacity; any length
+				n := Fresh(o.Name+"~len", SInt)
+				st.Assume(And(Le(IntLit(0), n), Le(n, sv.Cap)))
+				nilf := Fresh(o.Name+"~nil", SBool)
+				st.Assume(Implies(nilf, Eq(n, IntLit(0))))
+				nv = &SliceVal{Reg: sv.Reg, Off: sv.Off, Len: n, Cap: sv.Cap, Nil: nilf, Elt: sv.Elt}
 			} else {
 				nv = x.freshValue(st, t, o.Name+"~", false)
 			}
